@@ -2,6 +2,7 @@
 # usage: tools/confirm_mutant.sh <dir with patch.diff demo_test.go meta.json> <name>
 # Confirms, in a scratch worktree of /repo HEAD: patch applies, repo compiles, the whole pinned suite passes with
 # the patch, the demo fails with the patch and passes without it. Writes the verdict to <seeded>/<name>/confirm.json.
+export DBUS_SESSION_BUS_ADDRESS="${DBUS_SESSION_BUS_ADDRESS:-unix:path=/nonexistent/vmon-no-session-bus}"   # no session bus daemon per process (keyring init)
 src="$1"; name="$2"
 export GOFLAGS=-mod=mod GOPROXY=off GOSUMDB=off GOTOOLCHAIN=local GOMAXPROCS=${GOMAXPROCS:-6}
 wt=/var/tmp/vmon-confirm-$name
